@@ -182,6 +182,20 @@ def assign_value(stmt, target, where):
     return stmt.value
 
 
+def signature(fn, names, ndefaults, where):
+    """positional parameter names; -> the default values as Coq booleans"""
+    a = fn.args
+    if [x.arg for x in a.args] != names or a.vararg or a.kwarg or \
+            a.kwonlyargs or a.posonlyargs or len(a.defaults) != ndefaults:
+        raise TranslationError("%s: signature %s" % (where, ast.unparse(a)))
+    out = []
+    for d in a.defaults:
+        if not (isinstance(d, ast.Constant) and type(d.value) is bool):
+            raise TranslationError("%s: default %s" % (where, ast.unparse(d)))
+        out.append("true" if d.value else "false")
+    return out
+
+
 def translate_text(text):
     py = decythonize.decythonize(text, REL)
     tree = ast.parse(py)
@@ -207,6 +221,13 @@ def translate_text(text):
 
     # ---- downsample_grid ---------------------------------------------------
     fn = find_fn(tree, "downsample_grid")
+    if [ast.unparse(d) for d in fn.decorator_list] != ["Cache"]:
+        raise TranslationError("downsample_grid: decorators")
+    dflt = signature(fn, ["a", "b", "samples", "remove_invalid", "ret_idx"], 2,
+                     "downsample_grid")
+    defs.append("(* keyword defaults (remove_invalid, ret_idx) *)\n"
+                "Definition gen_grid_defaults : bool * bool := (%s, %s)."
+                % tuple(dflt))
     body = body_of(fn)
     t = texts(body)
     head = ["samples_int = int(np.uint32(samples))",
@@ -325,6 +346,12 @@ def translate_text(text):
 
     # ---- downsample_rand ---------------------------------------------------
     fn = find_fn(tree, "downsample_rand")
+    if fn.decorator_list:
+        raise TranslationError("downsample_rand: decorators")
+    dflt = signature(fn, ["a", "samples", "remove_invalid", "ret_idx"], 2,
+                     "downsample_rand")
+    defs.append("Definition gen_rand_defaults : bool * bool := (%s, %s)."
+                % tuple(dflt))
     body = body_of(fn)
     t = texts(body)
     want = {0: "rs = np.random.RandomState(seed=47).get_state()",
@@ -360,6 +387,8 @@ def translate_text(text):
 
     # ---- populate_grid -------------------------------------------------------
     fn = find_fn(tree, "populate_grid")
+    signature(fn, ["x_discrete", "y_discrete", "keepd", "toproc"], 0,
+              "populate_grid")
     t = texts(body_of(fn))
     want = ["iter_size = int(x_discrete.size)", "x_view = x_discrete",
             "y_view = y_discrete", "keepd_view = keepd", "toproc_view = toproc",
